@@ -43,8 +43,10 @@ CLAIM = dict(
          "set by _from_namespace; module_key_injective — under SHA-1 collision freedom distinct names map to distinct module "
          "files; load_compiled_own_code / load_uncompiled_not_found — ModuleLoader.load of a compiled name yields that "
          "template's own code, of any other name TemplateNotFound; precompiled_lookup_eq — hence both loaders present the same "
-         "name->meaning map for every name; skipped_template_not_found states the documented boundary (templates that do not "
-         "compile are skipped). PARTIAL: that rendering over equal maps gives equal output (DESIGN's precompiled_render_eq) is "
+         "name->meaning map for every name; shared_loader_keeps_own_environment — any number of loads of any templates for any "
+         "environments through ONE module loader leave every template object with a namespace that holds its own code and its "
+         "own environment (each load executes the module into a new namespace); skipped_template_not_found states the "
+         "documented boundary (templates that do not compile are skipped). PARTIAL: that rendering over equal maps gives equal output (DESIGN's precompiled_render_eq) is "
          "not proved; import machinery, zipimport and file IO are correspondence-only. Tie: L-code on every generated "
          "template x 5 environment configurations (the deferred source must equal the eager one after dropping the parameter "
          "from exactly the lines the model names, and equal the file compile_templates writes under the name the model "
@@ -52,7 +54,10 @@ CLAIM = dict(
          "with/without context, ignore missing, select lists, imports with/without context, odd template names, missing "
          "references) compiled to a directory and to stored/deflated zips, loaded by ModuleLoader in a fresh Environment with the "
          "same options (plain, autoescape, async, sandboxed, custom delimiters), every template rendered both ways with several "
-         "data sets; outputs and exception classes must agree.",
+         "data sets; outputs and exception classes must agree; per set additionally ONE ModuleLoader (control: one DictLoader) "
+         "shared by an environment, its overlay and an independently constructed environment that differ in run-time "
+         "configuration (undefined type, filter table), templates rendered through A, B, C, A and compared with the source "
+         "path in the same configuration, module namespaces checked for their own environment.",
     note="Trusted: Lean kernel; hand model tied by correspondence; sha1 collision freedom. Partial by design: the assurance for "
          "the rendering part of this property is its correspondence run.",
     design_ref="§5 C31",
@@ -156,6 +161,68 @@ def render(env, name, data):
         return ["raised", type(e).__name__ + extra]
 
 
+def _upper_b(s):
+    return "<B:%s>" % (s,)
+
+
+def _upper_c(s):
+    return "<C:%s>" % (s,)
+
+
+def _join_c(eval_ctx, value, d="", attribute=None):
+    # the built-in join is a pass_eval_context filter and the compiler bakes that calling convention into the generated code,
+    # so the replacement keeps it (env_family wraps this in jinja2.pass_eval_context): only run-time behaviour differs
+    return "<Cjoin:%s>" % d.join(str(x) for x in value)
+
+
+def env_family(jinja2, cfg, loader):
+    """three environments over ONE loader object that differ in run-time configuration only (undefined type, contents of the
+    filter table): A plain; B = A.overlay(...) (an overlay shares the loader); C constructed independently with the same loader"""
+    a = make_env(jinja2, cfg, loader)
+    b = a.overlay(undefined=jinja2.StrictUndefined)
+    b.filters = dict(a.filters, upper=_upper_b)
+    c = make_env(jinja2, cfg, loader)
+    c.undefined = jinja2.DebugUndefined
+    c.filters = dict(c.filters, upper=_upper_c, join=jinja2.pass_eval_context(_join_c))
+    return [("A", a), ("B", b), ("C", c)]
+
+
+def shared_loader(res, jinja2, cfg, zmode, target, templates, datas, stats):
+    """one ModuleLoader instance shared by several environments (and, as control, one DictLoader): every template rendered
+    through A, B, C and A again; each rendering must equal the source-loaded rendering under the same configuration, and each
+    loaded template's module namespace must hold its own environment (theorem shared_loader_keeps_own_environment)"""
+    pre = env_family(jinja2, cfg, jinja2.ModuleLoader(str(target)))
+    src = env_family(jinja2, cfg, jinja2.DictLoader(dict(templates)))
+    case0 = {"config": cfg, "zip": zmode, "templates": templates, "shared_loader": True}
+    order = [0, 1, 2, 0]
+    for name in templates:
+        for data in datas:
+            for rnd, k in enumerate(order):
+                a = render(src[k][1], name, data)
+                b = render(pre[k][1], name, data)
+                stats["shared_renders"] += 1
+                if a != b:
+                    res.violate(f"C31:e2e:shared-loader:{cfg}:{'dir' if zmode is None else 'zip'}",
+                                f"one ModuleLoader shared by three environments: template {name!r} rendered through environment "
+                                f"{pre[k][0]} (step {rnd + 1} of A,B,C,A; config {cfg}, zip={zmode}) gives {b!r:.250}, loading from "
+                                f"source in the same configuration gives {a!r:.250}",
+                                dict(case0, name=name, data=data, environment=pre[k][0], step=rnd, source=a, precompiled=b))
+    # every environment's cached template still sees its own environment
+    for label, fam in (("precompiled", pre), ("source", src)):
+        for tag, env in fam:
+            for name in templates:
+                try:
+                    t = env.get_template(name)
+                except Exception:  # noqa
+                    continue
+                stats["namespace_checks"] += 1
+                if t.root_render_func.__globals__.get("environment") is not env:
+                    res.violate(f"C31:shared-loader:namespace-binding:{label}",
+                                f"after loading through environments A, B, C, the module namespace of template {name!r} held by "
+                                f"environment {tag} ({label} path) has `environment` bound to a different environment object",
+                                dict(case0, name=name, environment=tag))
+
+
 def e2e_set(ctx, res, jinja2, rng, idx, cfg, zmode, tmp, reqs, checks, stats):
     g = SetGen(rng, depth=rng.choice([2, 3]))
     templates, _ = g.make_set()
@@ -213,6 +280,7 @@ def e2e_set(ctx, res, jinja2, rng, idx, cfg, zmode, tmp, reqs, checks, stats):
     stats["sets"] += 1
     stats["templates"] += len(templates)
     del env_pre, loader
+    shared_loader(res, jinja2, cfg, zmode, target, templates, datas[:2], stats)
     gc.collect()
 
 
@@ -220,7 +288,8 @@ def run(ctx, res):
     jinja2 = core.import_jinja()
     tmp = tempfile.mkdtemp(prefix="jv-c31-")
     reqs, checks = [], []
-    stats = {"sets": 0, "templates": 0, "renders": 0, "outcomes": {}, "features": {}, "sets_out_of_domain": 0, "distinct": set()}
+    stats = {"sets": 0, "templates": 0, "renders": 0, "outcomes": {}, "features": {}, "sets_out_of_domain": 0, "distinct": set(),
+             "shared_renders": 0, "namespace_checks": 0}
     lcode = {"ok": 0, "syntax-error": 0}
     try:
         # L-code over single templates: the C30 grammar (rich statements) + every template of the sets below
@@ -280,14 +349,18 @@ def run(ctx, res):
                                                     "loading agrees with the real loader)", dict(case, layer="L-unit"), no_input=True)
     distinct = len(stats.pop("distinct"))
     res.coverage.update({
-        "evaluations": len(reqs) + stats["renders"],
+        "evaluations": len(reqs) + stats["renders"] + stats["shared_renders"] + stats["namespace_checks"],
         "distinct_nontrivial": distinct + lcode["ok"],
         "rule": "L-code: single templates from the C30 grammar (120/3000) and every template of every set, in 5 configurations "
                 "(plain, autoescape, async, sandboxed, custom delimiters): both compilation modes compared textually, header "
                 "lines against the model. L-e2e: sets from harness/gen/c31_sets.py (4-10 templates: libraries, includes incl. odd "
                 "names, 1-3 level inheritance chain, optional orphan with missing references), config and zip mode cycled, "
                 "every template x 3/5 data sets rendered through DictLoader and through compile_templates + ModuleLoader; "
-                "non-trivial = distinct (set, template, data, config, zip mode)",
+                "non-trivial = distinct (set, template, data, config, zip mode). Shared loader: per set one ModuleLoader (and, as "
+                "control, one DictLoader) shared by environment A, its overlay B (StrictUndefined, `upper` replaced) and an "
+                "independently constructed C (DebugUndefined, `upper`/`join` replaced); every template x 2 data sets rendered "
+                "through A, B, C, A and compared with the source path in the same configuration; module namespaces checked for "
+                "their own `environment`",
         "samples": [c for k, p, c in checks if k == "load"][:2],
         "lcode": lcode, "model_mismatches": mism, "configs": CONFIGS, "zip_modes": [str(z) for z in ZIPS],
         "e2e": stats,
@@ -299,6 +372,20 @@ def replay(ctx, case):
     c = case.get("case", case)
     if "templates" not in c or "name" not in c or "data" not in c:
         return c
+    if c.get("shared_loader"):
+        tmp = tempfile.mkdtemp(prefix="jv-c31-")
+        try:
+            target = Path(tmp) / ("set" + ("" if c["zip"] is None else ".zip"))
+            make_env(jinja2, c["config"], jinja2.DictLoader(dict(c["templates"]))).compile_templates(str(target), zip=c["zip"])
+            pre = env_family(jinja2, c["config"], jinja2.ModuleLoader(str(target)))
+            src = env_family(jinja2, c["config"], jinja2.DictLoader(dict(c["templates"])))
+            out = []
+            for k in [0, 1, 2, 0]:
+                out.append({"environment": pre[k][0], "from_source": render(src[k][1], c["name"], c["data"]),
+                            "precompiled": render(pre[k][1], c["name"], c["data"])})
+            return out
+        finally:
+            shutil.rmtree(tmp, ignore_errors=True)
     tmp = tempfile.mkdtemp(prefix="jv-c31-")
     try:
         env_src = make_env(jinja2, c["config"], jinja2.DictLoader(dict(c["templates"])))
